@@ -152,6 +152,11 @@ fn snapshot(fc: &Option<FileContext>) -> serde_json::Value {
             "finished": fc.did_inform_parser_processing_finished,
             "pending_extract": fc.pending_extract.is_some(),
             "has_parser": fc.parsing_thread.is_some(),
+            "pipeline": fc.parsing_thread.as_ref().map(|pt| serde_json::json!({
+                "parse_finished": pt.parse_thread.is_finished(),
+                "lc_finished": pt.lc_thread.is_finished(),
+                "sort_finished": pt.sort_thread.as_ref().map(|t| t.is_finished()),
+            })),
             "streams": fc.streams.iter().map(|s| serde_json::json!({
                 "id": s.id, "is_stream": s.is_stream, "one_pass": s.one_pass, "binary": s.binary,
                 "filters_active": s.filters_active,
